@@ -4,7 +4,7 @@ LEVEL = 'exploration'
 RULE = ('generated interface types (1-6 methods in random declaration order, unexported and embedded methods, six signature kinds incl. floats, strings, two results, variadic, pointer/error), two variables per type '
         '(one nil, one holding a real implementation); for every subset of up to 3 methods (and the full set) each method is mocked with Apply or As().Return, then every slot is called through the variable: mocked slots must '
         'reach their own replacement with the exact arguments, unmocked slots must panic with "method not implements", the other variable must be untouched; half of the cases Reset and compare the variable words with the pre-mock words, '
-        'the other half drop the builder, arm finalizer-based GC-reachability monitors on the object address decoded from every stub, force collections and call again; plus two variables of one type and same-named types in one builder; the whole suite once more with debug logging on; a 130-method interface mocked at positions 5, 98..100, 110 and 129; '
+        'the other half drop the builder, arm finalizer-based GC-reachability monitors on the object address decoded from every stub, force collections and call again; plus two variables of one type and same-named types in one builder; the whole suite once more with debug logging on; a 130-method interface mocked at positions 5, 98..100, 110 and 129; mocker objects kept across four Reset rounds and configured again through them (Apply, As.Return, As.When.Return, mixed): each round reaches the replacement of that round; '
         'distinct = (#methods, #mocked, variable) classes')
 
 
@@ -23,5 +23,6 @@ def run(ctx):
     # once more with debug logging on: every replacement is reached through the logging wrapper
     ctx.children(b, 2 if not ctx.thorough else 4, run='TestC07$', timeout=2400, env={'VERIF_C07_DEBUG': '1'}, what='TestC07[debug logging]')
     ctx.children(b, 1, run='TestC07Big', timeout=300, what='TestC07Big')
+    ctx.children(b, 1, run='TestC07Kept', timeout=300, what='TestC07Kept')
     if ctx.stats.get('gc_monitors_armed', 0) == 0:
         ctx.inconclusive.append('no GC-reachability monitor could be armed')
